@@ -332,7 +332,7 @@ def run_history(seed, ops, cfg, pool=None, want_full=None):
             if o["kind"] == "exc":
                 faults["F-parse" if o["cls"].endswith("SyntaxError") else "F-run-or-reject"] += 1
         if want_full == pos:
-            full = o
+            full = None if fired else o  # a faulted operation is not judged on its own outcome (only that it terminates)
         prev = "faulted" if fired else ("failed" if o["kind"] == "exc" else "ok")
         log.append([k, outcome.short(o) if not fired else "faulted"])
         # invariants after every operation
